@@ -897,3 +897,44 @@ def make_scene(sc) -> dict:
   spec["nkey"] = 0
   spec["nuserdata"] = 0
   return spec
+
+
+# --------------------------------------------------------------------------------------
+# "rich" models: contacts + every constraint kind + actuators, used by the metamorphic / stateful checks
+
+
+def rich_cfg(**over):
+  base = dict(
+    nroot=st.integers(1, 4),
+    maxdepth=st.integers(0, 2),
+    maxchild=st.integers(1, 2),
+    plane=True,
+    contacts="pile",
+    dynamics=True,
+    limits=st.sampled_from([0.0, 0.5]),
+    frictionloss=st.sampled_from([0.0, 0.3]),
+    tendons=st.integers(0, 1),
+    spatial_tendons=st.integers(0, 1),
+    equalities=st.integers(0, 2),
+    eq_sites=st.booleans(),
+    actuators=st.integers(0, 3),
+    act_menu=st.sampled_from([["motor", "position", "velocity"], ["motor", "general", "intvelocity", "position"], ["motor"]]),
+    trn_menu=st.sampled_from([["joint"], ["joint", "tendon", "site"]]),
+    condim_menu=st.sampled_from([[3], [1, 3, 4, 6]]),
+    geom_menu=st.sampled_from([["sphere", "capsule", "box"], ["sphere", "capsule"], ["sphere"]]),
+    mocap=st.integers(0, 1),
+    sites=1.0,
+  )
+  base.update(over)
+  return cfg_strategy(**base)
+
+
+def option_strategy(integrators=("Euler", "implicitfast", "implicit", "RK4"), solvers=("Newton", "CG"), cones=("pyramidal", "elliptic"), jacobians=("dense", "sparse")):
+  return st.fixed_dictionaries(
+    dict(
+      integrator=st.sampled_from(list(integrators)),
+      solver=st.sampled_from(list(solvers)),
+      cone=st.sampled_from(list(cones)),
+      jacobian=st.sampled_from(list(jacobians)),
+    )
+  )
